@@ -1101,7 +1101,7 @@ func (x *Extractor) EquivByCases(a, b *RF, depth int) bool {
 			as := x.regionAssumptions([]*RF{a, b}, d, reg)
 			a2, b2 := x.SimplifyUnder(a, as), x.SimplifyUnder(b, as)
 			if reg == 0 {
-				if sub := solveZero(x.S, d); sub != nil {
+				if sub := solveZero(x.S, d, a2, b2); sub != nil {
 					a2, b2 = a2.Subst(sub), b2.Subst(sub)
 				}
 			}
@@ -1181,7 +1181,7 @@ func (x *Extractor) regionAssumptions(exprs []*RF, d *RF, region int) []Assumpti
 }
 
 // solveZero: d == 0 solved for an atom occurring linearly with a constant coefficient.
-func solveZero(s *Sym, d *RF) map[AtomID]*RF {
+func solveZero(s *Sym, d *RF, exprs ...*RF) map[AtomID]*RF {
 	if c, ok := d.D.isConst(); !ok || c.Sign() == 0 {
 		return nil
 	}
@@ -1192,8 +1192,27 @@ func solveZero(s *Sym, d *RF) map[AtomID]*RF {
 		id := t.vars[0]
 		// a projection of a value that may also occur as a whole (fld:T.f(v) next
 		// to v itself) cannot be eliminated by substitution
-		if strings.HasPrefix(s.atoms[id].Name, "fld:") {
-			continue
+		if fa := s.atoms[id]; strings.HasPrefix(fa.Name, "fld:") && len(fa.Args) == 1 {
+			// … unless the value it projects occurs only through projections
+			base, whole := fa.Args[0], len(exprs) == 0
+			for _, e := range exprs {
+				if e.Equal(base) {
+					whole = true
+				}
+				for _, oa := range e.Atoms(true) {
+					if strings.HasPrefix(oa.Name, "fld:") {
+						continue
+					}
+					for _, arg := range oa.Args {
+						if arg.Equal(base) {
+							whole = true
+						}
+					}
+				}
+			}
+			if whole {
+				continue
+			}
 		}
 		// the atom must not occur elsewhere in d
 		occ := 0
